@@ -7,7 +7,7 @@ from harness.encode import enc_str, dec_str
 
 GRAMMAR_OF = {"ipv4": "ipv4", "ip-address": "ipv4", "ipv6": "ipv6", "date": "date", "email": "email", "idn-email": "email"}
 SEEDS = ["1.2.3.4", "::1", "fe80::1%eth0", "2020-02-29", "a@b", "2020-W01-1", "20200101", "1.2.3.04", "１.２.３.４", "a{99999999999}",
-         "(" * 600 + ")" * 600, "[", "\\", "xn--bcher-kva.example", "a" * 300, "", " ", "\n", "\x00", "\udc80", "٢٠٢٠-٠١-٠١",
+         "(" * 600 + ")" * 600, "a{" + "9" * 5000 + "}", "[", "\\", "xn--bcher-kva.example", "a" * 300, "", " ", "\n", "\x00", "\udc80", "٢٠٢٠-٠١-٠١",
          "23:59:60", "12:00:00", "1:2:3", "http://x", "é.com", "-a-.com", "a..b", "1" * 5000, "0x7f.1", "1e3.1.1.1", "::ffff:1.2.3.4",
          "::1.2.3", "1::2::3", ":::", "1:2:3:4:5:6:7:8:9", "2020-02-30T", "2020-2-1", "+020-01-01"]
 
@@ -48,7 +48,8 @@ def rand_string(rng):
     if k < 0.7:
         return "".join(chr(rng.choice([rng.randrange(32, 127), rng.randrange(0xA0, 0x800), rng.randrange(0x10000, 0x10400),
                                        rng.randrange(0, 32), 0xDC80, 0x200D])) for _ in range(rng.randrange(0, 12)))
-    return rng.choice(["(" * rng.randrange(1, 1500), "a{%d}" % 10 ** rng.randrange(1, 30), "[" * rng.randrange(1, 50) + "a",
+    return rng.choice(["(" * rng.randrange(1, 1500), "a{%d}" % 10 ** rng.randrange(1, 30), "a{%s}" % ("9" * rng.randrange(1, 6000)),
+                       "a{1,%s}" % ("7" * rng.randrange(4000, 5000)), "(?P<a>x)(?(%s)a|b)" % ("9" * rng.randrange(1, 5000)), "[" * rng.randrange(1, 50) + "a",
                        "1." * rng.randrange(1, 600), ":" * rng.randrange(1, 40), "9" * rng.randrange(1, 4000) + "-01-01",
                        "%d.%d.%d.%d" % tuple(rng.randrange(0, 400) for _ in range(4)),
                        ":".join("%x" % rng.randrange(0, 70000) for _ in range(rng.randrange(1, 10))),
